@@ -368,6 +368,18 @@ func fxCase(c *kit.Case) {
 		})
 	}
 	opt := fx.WithWorkers(p.N)
+	// an unrelated stream stage run earlier in the same process with other worker options must not
+	// change the cap of this one (options are per call, not process state)
+	if c.R.Chance(0.5) {
+		var prev fx.Option
+		if c.R.Bool() {
+			prev = fx.UnlimitedWorkers()
+		} else {
+			prev = fx.WithWorkers(p.N + c.R.Range(1, 64))
+		}
+		fx.Just(1, 2, 3, 4, 5, 6, 7, 8).Walk(func(item any, pipe chan<- any) { pipe <- item }, prev).Done()
+		c.Obs("fx_unrelated_stage_with_other_worker_options_ran_before", 1)
+	}
 	pp.run(func() {
 		switch p.API {
 		case "Walk":
